@@ -286,6 +286,18 @@ Definition do_mnemonic (s : p1state) (op : string) (ops : list exp) : p1state :=
         end
   end.
 
+(* mentionsIdent: does the identifier occur in the (evaluated) expression? *)
+Fixpoint mentions (n : string) (e : exp) : bool :=
+  match e with
+  | EImm (FId s) => String.eqb s n
+  | EImm _ => false
+  | ENum _ => false
+  | EAdd h t => mentions n h || (fix go (l : list (addop * exp)) : bool := match l with [] => false | (_, x) :: r => mentions n x || go r end) t
+  | EMul h t => mentions n h || (fix go (l : list (mulop * exp)) : bool := match l with [] => false | (_, x) :: r => mentions n x || go r end) t
+  | EMem _ _ l r => mentions n l || match r with Some x => mentions n x | None => false end
+  | ESeg _ l r => mentions n l || match r with Some x => mentions n x | None => false end
+  end.
+
 Definition step (s : p1state) (st : stmt) : p1state :=
   if stuck s then s else
   match st with
@@ -293,7 +305,8 @@ Definition step (s : p1state) (st : stmt) : p1state :=
   | SEqu n e =>
       match eval_top (env_of s) e with
       | Stuck => set_stuck s
-      | Ev e' _ => set_mac s n e'
+      | Ev e' _ => if mentions n e' then set_diag s      (* circular definition: reported and ignored (fix in /repo) *)
+                   else set_mac s n e'
       end
   | SGlobal l => add_globals s l
   | SExtern _ => s
